@@ -13,6 +13,7 @@ import (
 	"net"
 	"runtime"
 	"strings"
+	"sync"
 	"testing"
 	"testing/synctest"
 	"time"
@@ -540,6 +541,7 @@ func layer4(t *testing.T, r *vp.Recorder, depth int) {
 		{name: "republished-by-R-for-the-receivers-own-host", author: iR, selfOrigin: true},
 		{name: "malformed-from-F", author: iF, malformed: true},
 		{name: "direct-announce-of-O-with-resend", direct: true, origin: iO},
+		{name: "direct-announce-of-the-receivers-own-host-with-resend", direct: true, selfOrigin: true},
 		{name: "plain-from-F-same-cid-again", author: iF, repeatCid: true},
 		{name: "republished-by-R-for-O-same-cid-again", author: iR, origin: iO, repeatCid: true},
 	}
@@ -587,6 +589,32 @@ func layer4(t *testing.T, r *vp.Recorder, depth int) {
 						if err != nil {
 							panic(err)
 						}
+						// a second subscription on the topic: what other receivers of the
+						// topic are sent (the republications of direct announcements)
+						tap, err := topic.Subscribe()
+						if err != nil {
+							panic(err)
+						}
+						tapCtx, tapCancel := context.WithCancel(context.Background())
+						var tapMu sync.Mutex
+						var tapped []message.Message
+						tapDone := make(chan struct{})
+						go func() {
+							defer close(tapDone)
+							for {
+								pm, err := tap.Next(tapCtx)
+								if err != nil {
+									return
+								}
+								var m message.Message
+								if m.UnmarshalCBOR(bytes.NewReader(pm.Data)) == nil {
+									tapMu.Lock()
+									tapped = append(tapped, m)
+									tapMu.Unlock()
+								}
+							}
+						}()
+						defer func() { tapCancel(); tap.Cancel(); <-tapDone }()
 						rc, err := announce.NewReceiver(h, "", announce.WithTopic(topic), announce.WithResend(true), announce.WithAllowPeer(func(p peer.ID) bool { return p != deniedID }))
 						if err != nil {
 							panic(err)
@@ -652,8 +680,27 @@ func layer4(t *testing.T, r *vp.Recorder, depth int) {
 								src = iSelf
 							}
 							if sy.direct {
-								if err := rc.Direct(context.Background(), c, peer.AddrInfo{ID: idents[sy.origin].ID}); err != nil {
+								announced := idents[sy.origin].ID
+								if sy.selfOrigin {
+									announced = idents[iSelf].ID
+								}
+								if err := rc.Direct(context.Background(), c, peer.AddrInfo{ID: announced}); err != nil {
 									bad, cls = fmt.Sprintf("step %d %s: Direct failed: %v", k, sy.name, err), "direct-error"
+									return
+								}
+								// what went out on the topic for it names the announced
+								// publisher as the original one, whoever that is
+								synctest.Wait()
+								tapMu.Lock()
+								var rep *message.Message
+								for i := range tapped {
+									if tapped[i].Cid.Equals(c) {
+										rep = &tapped[i]
+									}
+								}
+								tapMu.Unlock()
+								if src != iDenied && !seen[cidNo] && (rep == nil || rep.OrigPeer != announced.String()) {
+									bad, cls = fmt.Sprintf("step %d %s: the republication on the topic is %+v, want one naming %s as original publisher", k, sy.name, rep, announced), "republication-not-attributed-to-the-announced-publisher"
 									return
 								}
 							} else {
@@ -745,7 +792,7 @@ func layer4(t *testing.T, r *vp.Recorder, depth int) {
 
 func TestCheck(t *testing.T) {
 	r := vp.New("C09", "model_checking",
-		"three layers, all against one reference model (allow predicate, then an LRU set with refresh-on-hit and explicit removal): (1) the LRU object (test-only export) at capacities 1..3 over capacity+2 strings: every sequence of exactly `depth` update/remove operations, return value and length compared after every step; (2) the real receiver (no pubsub) at its real capacity: a fill prefix of exactly capacity distinct CIDs (three variants: plain, one refreshed in the middle, one un-cached and re-announced) followed by every sequence of <= N operations over {announce oldest / second-oldest / newest / a fresh CID / a fresh CID from a denied peer / the oldest CID from a denied peer / the CID evicted last / the CID added last / a burst of capacity-1 fresh CIDs / the same digest as the newest or the oldest under another codec, un-cache oldest / newest / the other-codec variant of the newest}; after each announcement a consumer calls Next and quiescence in a synctest bubble decides delivered / not delivered; (3) every address list of <= M over 19 addresses (public, private ranges, loopback, unspecified, unique-local, localhost; the IP followed by tcp, udp, sctp, tls, http or nothing) with filtering on and off; (4) the pubsub path: every sequence of <= K messages over {plain from F, republished by relay R for origin O, republished for a denied origin, plain from a denied peer, republished by a denied relay for O, own republication, republished by R for an original publisher that is the receiver's own host, malformed payload, direct announcement with resend, repeats of the previous CID}, delivery / non-delivery and attribution decided by quiescence. states = distinct sequences; transitions = operations; traces = sequences executed on the real code.",
+		"three layers, all against one reference model (allow predicate, then an LRU set with refresh-on-hit and explicit removal): (1) the LRU object (test-only export) at capacities 1..3 over capacity+2 strings: every sequence of exactly `depth` update/remove operations, return value and length compared after every step; (2) the real receiver (no pubsub) at its real capacity: a fill prefix of exactly capacity distinct CIDs (three variants: plain, one refreshed in the middle, one un-cached and re-announced) followed by every sequence of <= N operations over {announce oldest / second-oldest / newest / a fresh CID / a fresh CID from a denied peer / the oldest CID from a denied peer / the CID evicted last / the CID added last / a burst of capacity-1 fresh CIDs / the same digest as the newest or the oldest under another codec, un-cache oldest / newest / the other-codec variant of the newest}; after each announcement a consumer calls Next and quiescence in a synctest bubble decides delivered / not delivered; (3) every address list of <= M over 19 addresses (public, private ranges, loopback, unspecified, unique-local, localhost; the IP followed by tcp, udp, sctp, tls, http or nothing) with filtering on and off; (4) the pubsub path: every sequence of <= K messages over {plain from F, republished by relay R for origin O, republished for a denied origin, plain from a denied peer, republished by a denied relay for O, own republication, republished by R for an original publisher that is the receiver's own host, malformed payload, direct announcement with resend (of O and of the receiver's own host; the republication is read from a second subscription on the topic and must name the announced publisher), repeats of the previous CID}, delivery / non-delivery and attribution decided by quiescence. states = distinct sequences; transitions = operations; traces = sequences executed on the real code.",
 		"reference model is the oracle (trusted, 30 lines)",
 		"pubsub path (layer 4): one libp2p host without transports and one gossipsub topic inside a synctest bubble; messages are injected on the topic under arbitrary author identities; multi-host gossip is not driven",
 		"non-public is judged by net.IP.IsLoopback/IsPrivate/IsUnspecified and the name localhost, independently of go-multiaddr's own classification",
